@@ -307,102 +307,139 @@ def _append_consistent(app, add):
     return None
 
 
+def _relation(ctx, F, test):
+    """Normalises a raising guard's test to (prev_expr, new_expr, kind) where
+    the guard fires exactly when NOT prev.end_time <= new.start_time.
+    kind: 'ok' | 'strict' (contiguous rejected) | 'other'; None if the test is
+    not a comparison of an end time with a start time."""
+    t = ctx.norm.xexpr(F, test)
+    neg = False
+    while isinstance(t, ast.UnaryOp) and isinstance(t.op, ast.Not):
+        t, neg = t.operand, not neg
+    if isinstance(t, ast.BoolOp) and isinstance(t.op, ast.And):
+        # `i > 0 and not valid`: take the conjunct that compares times
+        for v in t.values:
+            r = _relation(ctx, F, ast.UnaryOp(op=ast.Not(), operand=v) if neg else v)
+            if r is not None:
+                return r
+        return None
+    if not (isinstance(t, ast.Compare) and len(t.ops) == 1):
+        return None
+    l, r, op = t.left, t.comparators[0], t.ops[0]
+
+    def side(e):
+        if isinstance(e, ast.Attribute) and e.attr in ("end_time", "start_time"):
+            return e.attr, e.value
+        return None
+
+    sl, sr = side(l), side(r)
+    if sl is None or sr is None:
+        return None
+    # holds(valid) relation as written (before applying neg)
+    # normalise to "guard fires when G"; G = (neg ? not C : C)
+    # we want G == (prev.end > new.start)
+    kinds = {sl[0], sr[0]}
+    if kinds != {"end_time", "start_time"}:
+        return (sl[1], sr[1], "other")
+    if sl[0] == "end_time":
+        prev, new = sl[1], sr[1]
+        # C: prev.end OP new.start
+        fires_gt = (isinstance(op, ast.Gt) and not neg) or (isinstance(op, ast.LtE) and neg)
+        fires_ge = (isinstance(op, ast.GtE) and not neg) or (isinstance(op, ast.Lt) and neg)
+    else:
+        new, prev = sl[1], sr[1]
+        # C: new.start OP prev.end
+        fires_gt = (isinstance(op, ast.Lt) and not neg) or (isinstance(op, ast.GtE) and neg)
+        fires_ge = (isinstance(op, ast.LtE) and not neg) or (isinstance(op, ast.Gt) and neg)
+    if fires_gt:
+        return (prev, new, "ok")
+    if fires_ge:
+        return (prev, new, "strict")
+    return (prev, new, "other")
+
+
+def _raising_ifs(F):
+    return [n for n in own_nodes(F.node) if isinstance(n, ast.If) and any(isinstance(x, ast.Raise) for x in n.body)]
+
+
 def _order_relation(ctx, sched, add):
     chk = ctx.chk
-    valid = sched.methods.get("_is_valid_start_time")
-    users = []
-    rel_ok = None
-    if valid is not None:
-        ps = valid.params
-        ret = [n for n in own_nodes(valid.node) if isinstance(n, ast.Return)]
-        if len(ret) != 1 or not isinstance(ret[0].value, ast.Compare):
-            raise AnalysisError("_is_valid_start_time: shape not recognised")
-        c = ret[0].value
-        l, op, r = ast.unparse(c.left), c.ops[0], ast.unparse(c.comparators[0])
-        new_p, prev_p = ps[-2], ps[-1]
-        good = (
-            (isinstance(op, ast.LtE) and l == f"{prev_p}.end_time" and r == f"{new_p}.start_time")
-            or (isinstance(op, ast.GtE) and l == f"{new_p}.start_time" and r == f"{prev_p}.end_time")
+    F = ctx.norm.flat(add, depth=3)
+    p = add.params[1]
+    rels = []
+    for g in _raising_ifs(F):
+        r = _relation(ctx, F, g.test)
+        if r is not None:
+            rels.append((g, r))
+    if not rels:
+        chk.violation(
+            "R01.d", add, None,
+            "Schedule.add has no raising test of the new operation's start time against the end of the previous "
+            "operation on its machine: overlapping / out-of-order operations are accepted",
         )
-        if good:
-            chk.ok("R01.d", valid.qualname, valid.loc(), "previous.end_time <= new.start_time")
-        else:
+    for g, (prev, new, kind) in rels:
+        prev_t = ctx.norm.xtext(F, prev).replace(" ", "")
+        new_t = ctx.norm.xtext(F, new)
+        if kind == "other":
             chk.violation(
-                "R01.d", valid, c,
-                "the order relation is not `previous.end_time <= new.start_time`: overlapping or "
-                "out-of-order operations on a machine are accepted (or contiguous ones rejected)",
-                loc=valid.loc(c),
+                "R01.d", add, g.test,
+                f"the order test `{ctx.norm.xtext(F, g.test)[:100]}` is not `previous.end_time <= new.start_time`: "
+                "overlapping or out-of-order operations on a machine are accepted (or valid ones rejected)",
+                loc=F.loc(g),
             )
-        rel_ok = good
-    # add's check: compares against the LAST operation of the SAME machine
-    chkfn = sched.methods.get("_check_start_time_of_new_operation")
-    if chkfn is None:
-        raise AnalysisError("Schedule._check_start_time_of_new_operation vanished (inline form not modelled)")
-    p = chkfn.params[1]
-    last = None
-    last_x = None
-    for n in own_nodes(chkfn.node):
-        if isinstance(n, ast.Assign) and isinstance(n.targets[0], ast.Name):
-            x = ctx.norm.xexpr(chkfn, n.value)
-            if isinstance(x, ast.Subscript) and isinstance(x.value, ast.Subscript) and not isinstance(x.slice, ast.Slice):
-                inner = x.value
-                if ast.unparse(inner.value) in ("self.schedule", "self._schedule"):
-                    last, last_x = n, x
-    if last is None:
-        raise AnalysisError("Schedule._check_start_time_of_new_operation: predecessor lookup not recognised")
-    idx_m = ast.unparse(last_x.value.slice)
-    idx_l = ast.unparse(last_x.slice)
-    if idx_m != f"{p}.machine_id":
-        chk.violation("R01.d", chkfn, last, f"the predecessor is looked up on machine `{idx_m}`, not on the new operation's machine", loc=chkfn.loc(last))
-    elif idx_l != "-1":
-        chk.violation("R01.d", chkfn, last, f"the new operation is compared with element [{idx_l}] of its machine list, not with the last one", loc=chkfn.loc(last))
-    else:
-        chk.ok("R01.d", chkfn.qualname, chkfn.loc(last), "compares with the last operation of the same machine")
-    lname = last.targets[0].id if isinstance(last.targets[0], ast.Name) else None
-    found = False
-    for n in own_nodes(chkfn.node):
-        if isinstance(n, ast.Call) and isinstance(n.func, ast.Attribute) and n.func.attr == "_is_valid_start_time":
-            found = True
-            a = [ast.unparse(x) for x in n.args]
-            if a != [p, lname]:
-                chk.violation("R01.d", chkfn, n, f"order test called with ({', '.join(a)}): operands swapped or wrong", loc=chkfn.loc(n))
+            continue
+        if kind == "strict":
+            chk.violation("R01.d", add, g.test, "the order test rejects an operation that starts exactly when the previous one ends", loc=F.loc(g))
+            continue
+        if new_t != p:
+            chk.violation("R01.d", add, g.test, f"the order test is about `{new_t}`, not about the operation being added", loc=F.loc(g))
+            continue
+        want = {f"self.schedule[{p}.machine_id][-1]", f"self._schedule[{p}.machine_id][-1]"}
+        if prev_t in want:
+            chk.ok("R01.d", add.qualname, F.loc(g), "raises unless last(machine).end_time <= new.start_time")
+        else:
+            m = prev_t
+            if f"[{p}.machine_id]" not in m:
+                chk.violation("R01.d", add, g.test, f"the predecessor `{m}` is not looked up on the new operation's machine", loc=F.loc(g))
+            elif not m.endswith("[-1]"):
+                chk.violation("R01.d", add, g.test, f"the new operation is compared with `{m}`, not with the last operation of its machine list", loc=F.loc(g))
             else:
-                chk.ok("R01.d", chkfn.qualname, chkfn.loc(n), "order test on (new, last)")
-    if not found:
-        raise AnalysisError("_check_start_time_of_new_operation does not use _is_valid_start_time (inline relation not modelled)")
-    # the failing test must raise
-    raises = [n for n in own_nodes(chkfn.node) if isinstance(n, ast.If) and any(isinstance(x, ast.Raise) for x in n.body)]
-    okr = False
-    for n in raises:
-        t = n.test
-        if isinstance(t, ast.UnaryOp) and isinstance(t.op, ast.Not) and "_is_valid_start_time" in ast.unparse(t.operand):
-            okr = True
-    if okr:
-        chk.ok("R01.d", chkfn.qualname, chkfn.loc(), "raises when the order test fails")
-    else:
-        chk.violation("R01.d", chkfn, None, "a failing order test does not raise")
+                raise AnalysisError(f"{F.loc(g)}: predecessor expression `{m}` not recognised")
     # check_schedule: machine id match + relation with predecessor i-1
     cs = sched.methods.get("check_schedule")
     if cs is None:
         raise AnalysisError("Schedule.check_schedule vanished")
-    src = ast.unparse(cs.node)
-    has_mid = any(
-        isinstance(n, ast.If) and isinstance(n.test, ast.Compare) and isinstance(n.test.ops[0], ast.NotEq)
-        and "machine_id" in ast.unparse(n.test) and any(isinstance(x, ast.Raise) for x in n.body)
-        for n in own_nodes(cs.node)
-    )
-    has_rel = False
-    for n in own_nodes(cs.node):
-        if isinstance(n, ast.Call) and isinstance(n.func, ast.Attribute) and n.func.attr == "_is_valid_start_time" and len(n.args) == 2:
-            a0, a1 = n.args
-            if isinstance(a1, ast.Subscript) and ast.unparse(a1.slice).replace(" ", "") == "i-1" and isinstance(a0, ast.Name):
-                has_rel = True
-            else:
-                chk.violation("R01.d", cs, n, "check_schedule compares an operation with something other than its predecessor [i - 1]", loc=cs.loc(n))
-                has_rel = None
+    C = ctx.norm.flat(cs, depth=2)
+    has_mid = False
+    has_rel = None
+    for g in _raising_ifs(C):
+        t = ctx.norm.xexpr(C, g.test)
+        if isinstance(t, ast.Compare) and isinstance(t.ops[0], ast.NotEq) and "machine_id" in ast.unparse(t):
+            has_mid = True
+            continue
+        r = _relation(ctx, C, g.test)
+        if r is None:
+            continue
+        prev, new, kind = r
+        prev_t = ast.unparse(prev).replace(" ", "")
+        fors = [n for n in own_nodes(C.node) if isinstance(n, ast.For) and isinstance(n.iter, ast.Call) and ast.unparse(n.iter.func) == "enumerate"]
+        inner = fors[-1] if fors else None
+        ok_pair = False
+        if inner is not None and isinstance(inner.target, ast.Tuple):
+            iv, ev = inner.target.elts[0].id, inner.target.elts[1].id
+            lst = ast.unparse(inner.iter.args[0])
+            ok_pair = ast.unparse(new) == ev and prev_t == f"{lst}[{iv}-1]"
+        if kind != "ok":
+            has_rel = False
+            chk.violation("R01.d", cs, g.test, "check_schedule's order relation is not `previous.end_time <= next.start_time`", loc=C.loc(g))
+        elif not ok_pair:
+            has_rel = False
+            chk.violation("R01.d", cs, g.test, "check_schedule compares an operation with something other than its predecessor [i - 1]", loc=C.loc(g))
+        else:
+            has_rel = True
     if has_mid and has_rel:
         chk.ok("R01.d", cs.qualname, cs.loc(), "validates machine id and order against the predecessor")
-    elif has_rel is False or not has_mid:
+    elif has_rel is None or not has_mid:
         chk.violation(
             "R01.d", cs, None,
             "check_schedule does not validate " + ("the machine id of each entry" if not has_mid else "the time order of consecutive entries"),
